@@ -12,6 +12,15 @@ import random
 from hsverif.scenarios import CATALOGUE, Scenario, scenario
 from hsverif.scenarios._kit import ConstantLatency, Entity, Event, P, ev, make_sim
 
+def _canon(x):
+    """Label of an item for the digest that does not itself depend on PYTHONHASHSEED (repr of a set does)."""
+    if isinstance(x, (set, frozenset)):
+        return "set{" + ", ".join(sorted(_canon(e) for e in x)) + "}"
+    if isinstance(x, tuple):
+        return "(" + ", ".join(_canon(e) for e in x) + ")"
+    return repr(x)
+
+
 if "determinism.sketch_answers_strings" not in CATALOGUE:
 
     class Answers:
@@ -68,7 +77,7 @@ if "determinism.sketch_answers_strings" not in CATALOGUE:
                 "bloom": [bloom.contains(x) for x in probes],
                 "hll": hll.cardinality(),
                 "hll_fine": hll_fine.cardinality(),
-                "topk": [[repr(t.item), t.count, t.error] for t in topk.top()],
+                "topk": [[_canon(t.item), t.count, t.error] for t in topk.top()],
             }
 
         return Scenario(sim, {"feeder": feeder, "sketches": Answers(answers)}, "determinism", True, 220)
